@@ -71,7 +71,38 @@ static void toBox(const Scenario& sc, std::vector<std::array<double, 3>>& pts) {
     }
 }
 
+
+// The 112 dependency-respecting stagings of {P2M < M2M < M2L < L2L < L2P, P2P free} (DESIGN appendix A.4) + 6 single flags.
+static const std::vector<std::vector<int>>& stagings() {
+    static std::vector<std::vector<int>> table;
+    if (!table.empty()) return table;
+    const int chain[5] = {F_P2M, F_M2M, F_M2L, F_L2L, F_L2P};
+    for (int mask = 0; mask < 16; ++mask) {
+        std::vector<int> blocks(1, 0);
+        for (int i = 0; i < 5; ++i) {
+            blocks.back() |= chain[i];
+            if (i < 4 && (mask & (1 << i))) blocks.push_back(0);
+        }
+        const int k = int(blocks.size());
+        for (int j = 0; j < k; ++j) { std::vector<int> st = blocks; st[size_t(j)] |= F_P2P; table.push_back(st); }
+        for (int p = 0; p <= k; ++p) { std::vector<int> st = blocks; st.insert(st.begin() + p, F_P2P); table.push_back(st); }
+    }
+    const int singles[6] = {F_P2M, F_M2M, F_M2L, F_L2L, F_L2P, F_P2P};
+    for (int f : singles) table.push_back(std::vector<int>(1, f));
+    return table;
+}
+int nbStagings() { return int(stagings().size()); }
+
+static void applyStaging(Scenario& sc, int k) {
+    const auto& t = stagings();
+    const std::vector<int>& st = t[size_t(k) % t.size()];
+    sc.history.clear();
+    for (int f : st) { HistOp op; op.op = "execute"; op.flags = f; sc.history.push_back(op); }
+    sc.variant = (size_t(k) % t.size()) < 112 ? "staged" : "single";
+}
+
 void applySchedule(Scenario& sc, int sub, bool plainFlavour) {
+    if (sc.prop == "C12") applyStaging(sc, sub);
     Prng r(sc.seed * 0x9E3779B97F4A7C15ULL + uint64_t(sub) * 0xD1B54A32D192ED03ULL + 17);
     sc.sub = sub;
     sc.schedSeed = r.next();
@@ -120,6 +151,9 @@ Scenario generate(const std::string& prop, uint64_t seed, const std::string& tie
     else if (prop == "C02") {
         static const char* ex[] = {"seq", "omp", "omp", "seqtsm", "omptsm", "omp"};
         sc.executor = ex[r.below(6)];
+    } else if (prop == "C12" || prop == "C13") {
+        static const char* ex[] = {"seq", "omp", "omp", "seqtsm", "omptsm", "omp"};
+        sc.executor = ex[r.below(6)];
     } else {
         static const char* ex[] = {"omp", "omp", "omp", "omptsm", "omptsm", "seq", "seqtsm"};
         sc.executor = ex[r.below(prop == "C03" ? 5 : 7)];
@@ -135,7 +169,8 @@ Scenario generate(const std::string& prop, uint64_t seed, const std::string& tie
     }
     // particles
     long maxN = sc.height >= 6 ? 120 : (sc.height == 5 ? 220 : 400);
-    if (prop == "C12") maxN = 120;
+    if (prop == "C12") { maxN = 120; if (sc.height > 5) sc.height = 5; }
+    if (prop == "C13") maxN = 200;
     const long n = 1 + long(std::pow(r.unit(), 1.7) * double(maxN - 1));
     const double lo[3] = {0, 0, 0}, hi[3] = {1, 1, 1};
     const int kind = int(r.below(8));
@@ -160,6 +195,7 @@ Scenario generate(const std::string& prop, uint64_t seed, const std::string& tie
     sc.blockSize = bs[r.below(6)];
     sc.oneGroupPerParent = r.chance(0.35);
     sc.upper = r.chance(0.7) ? (sc.isPeriodic() ? 1 : 2) : long(r.below(uint64_t(sc.height + 1)));
+    if (prop == "C12") sc.upper = long(r.below(uint64_t(sc.height + 1)));
     sc.threadsCtor = 1 + int(r.below(16));
     sc.threadsExec = sc.threadsCtor;
     if (prop != "C18" && r.chance(0.25)) sc.threadsExec = 1 + int(r.below(16));
@@ -177,6 +213,57 @@ Scenario generate(const std::string& prop, uint64_t seed, const std::string& tie
     } else if (prop == "C18") {
         sc.history.push_back(full);
         if (r.chance(0.3)) sc.history.push_back(full);
+    } else if (prop == "C13") {
+        // cycles of  move -> rebuild -> (execute)
+        if (r.chance(0.5)) sc.history.push_back(full);
+        const int cycles = 1 + int(r.below(3));
+        std::vector<std::array<double, 3>> cur[2] = {sc.src, sc.tgt};
+        const long cells = 1L << (sc.height - 1);
+        for (int c = 0; c < cycles; ++c) {
+            HistOp mv; mv.op = "move";
+            const int kindMv = int(r.below(7));
+            for (int t = 0; t < (sc.isTsm() ? 2 : 1); ++t) {
+                if (cur[t].empty()) continue;
+                const std::array<double, 3> gather{{r.unit(), r.unit(), r.unit()}};
+                const long victimLeaf[3] = {long(r.below(uint64_t(cells))), long(r.below(uint64_t(cells))), long(r.below(uint64_t(cells)))};
+                for (size_t i = 0; i < cur[t].size(); ++i) {
+                    std::array<double, 3> u;   // unit-cube coordinates of the new position
+                    bool moved = true;
+                    for (int d = 0; d < 3; ++d) {
+                        const double corner = sc.centre[size_t(d)] + sc.width[size_t(d)] * (-1.0 / 2.0);
+                        u[size_t(d)] = (cur[t][i][size_t(d)] - corner) / sc.width[size_t(d)];
+                    }
+                    switch (kindMv) {
+                        case 0: if (!r.chance(0.3)) { moved = false; break; } for (int d = 0; d < 3; ++d) u[size_t(d)] += (r.unit() - 0.5) * 0.2 / double(cells); break;   // jitter
+                        case 1: if (!r.chance(0.3)) { moved = false; break; } for (int d = 0; d < 3; ++d) u[size_t(d)] = r.unit(); break;                                  // jump
+                        case 2: for (int d = 0; d < 3; ++d) u[size_t(d)] = (std::floor(gather[size_t(d)] * double(cells)) + r.unit()) / double(cells); break;             // all into one leaf
+                        case 3: {                                                                                                                                            // empty one leaf
+                            bool in = true;
+                            for (int d = 0; d < 3; ++d) if (long(std::floor(u[size_t(d)] * double(cells))) != victimLeaf[d]) in = false;
+                            if (!in && !r.chance(0.05)) { moved = false; break; }
+                            for (int d = 0; d < 3; ++d) u[size_t(d)] = r.unit();
+                            break;
+                        }
+                        case 4: if (!r.chance(0.5)) { moved = false; break; } for (int d = 0; d < 3; ++d) u[size_t(d)] = double(r.below(uint64_t(cells + 1))) / double(cells); break;  // onto faces
+                        case 5: moved = false; break;                                                                                                                        // rebuild without moving
+                        default: if (i != 0) { moved = false; break; } for (int d = 0; d < 3; ++d) u[size_t(d)] = r.unit(); break;                                          // a single particle
+                    }
+                    if (!moved) continue;
+                    MoveRec m; m.tree = t; m.index = long(i);
+                    for (int d = 0; d < 3; ++d) {
+                        const double corner = sc.centre[size_t(d)] + sc.width[size_t(d)] * (-1.0 / 2.0);
+                        const double uu = std::min(1.0, std::max(0.0, u[size_t(d)]));
+                        m.pos[size_t(d)] = clampToBox(corner + uu * sc.width[size_t(d)], corner, sc.width[size_t(d)]);
+                    }
+                    cur[t][i] = m.pos;
+                    mv.moves.push_back(m);
+                }
+            }
+            sc.history.push_back(mv);
+            HistOp rb; rb.op = "rebuild";
+            sc.history.push_back(rb);
+            if (r.chance(0.65)) { HistOp e = full; if (r.chance(0.2)) e.flags = F_P2P; sc.history.push_back(e); }
+        }
     } else {
         sc.history.push_back(full);
     }
